@@ -1,6 +1,6 @@
 """C11 -- clustering / triangles / transitivity: refusals and subset restriction only."""
 from core import ASSUME_RUSTC, ASSUME_PATHS, ASSUME_AT
-from flow import Flows, L, fmt_desc
+from flow import Flows, L, fmt_desc, desc_mentions
 from guard import Guards, check_refusal
 import panic
 from panic import enumerate_sites, origin_of, origin_call, existence_guard, norm, norm_str
@@ -14,7 +14,7 @@ EXPLANATION = (
     "R-C11-2 (key domain): a neighbour map built by get_neighbors_of_nodes for a caller-chosen SUBSET has that subset as its key "
     "domain; an unwrapped lookup in such a map (keys are neighbours, which need not be in the subset) is a violation unless an "
     "existence guard dominates it; the map's provenance is followed inter-procedurally through parameters and closure captures.  "
-    "R-C11-5: the edge lookups reachable from the clustering functions obey the edge stores' canonical-key discipline (same rule as R-C02-3), without which a weight is looked up under an orientation it is not stored under.  R-C11-3: the result of the subset-taking functions depends on the node_names argument (restriction is not ignored).  R-C11-9: the divisor of each of the four clustering quotients, evaluated as arithmetic over a grid of (degree, reciprocal degree), equals d(d-1) resp. 2(d_tot(d_tot-1) - 2 d_rec) (the description tree is evaluated, graphrs is not run).  NOT "
+    "R-C11-5: the edge lookups reachable from the clustering functions obey the edge stores' canonical-key discipline (same rule as R-C02-3), without which a weight is looked up under an orientation it is not stored under.  R-C11-3: the result of the subset-taking functions depends on the node_names argument (restriction is not ignored).  R-C11-9: the divisor of each of the four clustering quotients, evaluated as arithmetic over a grid of (degree, reciprocal degree), equals d(d-1) resp. 2(d_tot(d_tot-1) - 2 d_rec) (the description tree is evaluated, graphrs is not run).  R-C11-10: transitivity returns sum(triangle field)/sum(d(d-1)).  NOT "
     "decided: any coefficient's value, the [0,1] range, that subset values equal the full computation's values."
 )
 TRUSTED = ["rustc MIR construction", "CFG paths over-approximate executions; dependence is over-approximated"]
@@ -136,10 +136,10 @@ def run(ctx):
     # expression tree over the kernel's degree fields, is evaluated at a grid of (degree, reciprocal degree) points and
     # compared with d(d-1) (undirected) / 2(d_tot(d_tot-1) - 2 d_rec) (directed, Fagiolo).  Two low-degree polynomials
     # that agree on the grid are the same polynomial; nothing of graphrs is executed.
-    ctx.rule("R-C11-9", "the denominators of the four clustering-coefficient formulas equal d(d-1) resp. 2(d_tot(d_tot-1) - 2 d_rec) as polynomials in the degree fields")
+    ctx.rule("R-C11-9", "the four clustering coefficients are triangles / d(d-1) resp. triangles / 2(d_tot(d_tot-1) - 2 d_rec) as rational functions of the kernel's fields")
     from engines import same_on_grid
 
-    grid9 = [(t_, r_) for t_ in (2.0, 3.0, 5.0, 8.0) for r_ in (0.0, 1.0, 2.0)]
+    grid9 = [(t_, r_, n_) for t_ in (3.0, 4.0, 5.0, 8.0) for r_ in (0.0, 1.0, 2.0) for n_ in (1.0, 2.5)]
     n9 = 0
     for sfx9, want9 in (("cluster::get_clustering_directed", "dir"), ("cluster::get_clustering_directed_weighted", "dir"), ("cluster::get_clustering_undirected", "und"), ("cluster::get_clustering_undirected_weighted", "und")):
         kb9 = prog.one(sfx9)
@@ -148,7 +148,7 @@ def run(ctx):
             for st9 in b9.stmts():
                 if not (st9.k == "assign" and st9.rv.k == "binop" and st9.rv.j["op"] == "Div" and st9.rv.ops[1].place is not None and st9.rv.ops[1].place.ty == "f64"):
                     continue
-                d9 = norm(f9.describe(st9.rv.ops[1], depth=12))
+                d9 = norm(f9.describe_def(st9, depth=12))
 
                 def leaf_for(pt, _f9=f9):
                     def leaf(x):
@@ -158,18 +158,37 @@ def run(ctx):
                                 return pt[0]
                             if last == "reciprocal_degree":
                                 return pt[1]
+                            if last.endswith("triangles"):
+                                return pt[2]
                         return None
                     return leaf
 
-                exp9 = (lambda pt: 2.0 * (pt[0] * (pt[0] - 1.0) - 2.0 * pt[1])) if want9 == "dir" else (lambda pt: pt[0] * (pt[0] - 1.0))
+                exp9 = (lambda pt: pt[2] / (2.0 * (pt[0] * (pt[0] - 1.0) - 2.0 * pt[1]))) if want9 == "dir" else (lambda pt: pt[2] / (pt[0] * (pt[0] - 1.0)))
                 r9 = same_on_grid(f9, d9, leaf_for, exp9, grid9)
                 n9 += 1
                 if r9[0] is None:
                     ctx.undecided("R-C11-9", "denominator|" + sfx9.split("::")[-1], "the divisor in %s is not an arithmetic expression over the degree fields (%s)" % (sfx9.split("::")[-1], fmt_desc(d9)[:120]), loc_str(st9.span))
                 else:
-                    ctx.require(r9[0], "R-C11-9", "denominator|" + sfx9.split("::")[-1], "the denominator in %s is %s" % (sfx9.split("::")[-1], "2(d_tot(d_tot-1) - 2 d_rec)" if want9 == "dir" else "d(d-1)"),
-                                "the denominator in %s is not %s: at (degree, reciprocal degree) = %s it evaluates to %s instead of %s" % (sfx9.split("::")[-1], "2(d_tot(d_tot-1) - 2 d_rec)" if want9 == "dir" else "d(d-1)", r9[1] if not r9[0] else "", r9[2] if not r9[0] else "", r9[3] if not r9[0] else ""), loc_str(st9.span))
+                    ctx.require(r9[0], "R-C11-9", "denominator|" + sfx9.split("::")[-1], "the coefficient in %s is triangles / %s" % (sfx9.split("::")[-1], "2(d_tot(d_tot-1) - 2 d_rec)" if want9 == "dir" else "d(d-1)"),
+                                "the coefficient in %s is not triangles / %s: at (degree, reciprocal degree, triangles) = %s it evaluates to %s instead of %s" % (sfx9.split("::")[-1], "2(d_tot(d_tot-1) - 2 d_rec)" if want9 == "dir" else "d(d-1)", r9[1] if not r9[0] else "", r9[2] if not r9[0] else "", r9[3] if not r9[0] else ""), loc_str(st9.span))
     ctx.floor("R-C11-9", "coefficient_quotients", n9, 4)
+    # premise of the undirected form, read from the code: the kernel's triangle field counts every triangle through v
+    # twice (once per direction of the opposite edge), which is why triangles(v) halves it -- so field / d(d-1) IS
+    # "triangles over neighbour pairs"
+    tri9 = prog.one("cluster::triangles")
+    halves9 = False
+    for b9 in [tri9] + list(prog.closures_of(tri9.path)):
+        f9 = flows.of(b9)
+        for st9 in b9.stmts():
+            if st9.k == "assign" and st9.rv.k == "binop" and st9.rv.j["op"] == "Div":
+                dd9 = norm(f9.describe_def(st9, depth=8))
+                if dd9[0] == "binop" and dd9[3][0] == "const" and dd9[3][1].startswith("const 2_") and desc_mentions(dd9[2], lambda x: x[0] == "place" and x[1].endswith("triangles")):
+                    halves9 = True
+    if halves9:
+        ctx.ok("R-C11-9", "premise|triangles-halved", "triangles(v) is the kernel's triangle field / 2: the field counts each triangle twice, so field / d(d-1) is triangles over neighbour pairs")
+    else:
+        ctx.undecided("R-C11-9", "premise|triangles-halved", "triangles(v) no longer halves the kernel's triangle field; whether field / d(d-1) still is `triangles over neighbour pairs` is not decided", loc_str(tri9.span))
+    transitivity_formula(ctx, prog, flows)
     # ------------------------------------------------------------------ R-C11-8
     # Fagiolo's eight directed triangle types: a common neighbour k taken from "predecessors of x" is joined to x by the
     # edge k -> x, one taken from "successors of x" by x -> k.  In the weighted kernel each term multiplies the weights of
@@ -339,3 +358,87 @@ def run(ctx):
                 for o in ops:
                     sl |= fl.slice_local(fl._op_reads(o), data_only=True)
         ctx.require(L(pl) in sl, "R-C11-3", b.short, "result of %s depends on node_names" % sfx.split("::")[-1], "result of %s does NOT depend on node_names: the restriction is ignored" % sfx.split("::")[-1], loc_str(b.span))
+
+
+def transitivity_formula(ctx, prog, flows):
+    """R-C11-10: "transitivity is 3 x triangles / connected triples".  With the kernel's conventions (the triangle field of
+    a node counts each triangle through it twice, so its sum over the nodes is 6 x the number of triangles; a node of
+    degree d is the centre of d(d-1)/2 triples) that is  sum(field) / sum(d(d-1)).  Checked as expressions: the per-node
+    terms the two sums add up are `field` and d(d-1) (d(d-1) with the subtraction saturating at 0), and the value
+    returned is the first sum over the second."""
+    from engines import FormulaEval, classify_forms, matches_form, mapped_closure_of
+
+    ctx.rule("R-C11-10", "transitivity returns sum(triangle field) / sum(d(d-1)) over the kernel's per-node records (= 3 x triangles / connected triples)")
+    tr = prog.one("cluster::transitivity")
+    fl = flows.of(tr)
+    grid_d = [(d_, t_) for d_ in (1.0, 2.0, 3.0, 6.0) for t_ in (0.0, 2.0, 7.0)]
+
+    def leaf_d(pt):
+        def leaf(x):
+            if isinstance(x, tuple) and x[0] == "place":
+                last = x[1].split(".")[-1]
+                if last == "degree":
+                    return pt[0]
+                if last.endswith("triangles"):
+                    return pt[1]
+            return None
+        return leaf
+
+    kinds = {}
+    for cb in prog.closures_of(tr.path):
+        if cb.local_ty(0) not in ("usize", "f64", "u64"):
+            continue
+        fe = FormulaEval(flows.of(cb))
+        vecs = None
+        for (bb, st) in cb.assigns_to(0):
+            cols = []
+            for pt in grid_d:
+                vs = fe.definition(st, leaf_d(pt))
+                cols.append(vs[0] if vs and len(vs) == 1 else None)
+            vecs = cols if None not in cols else None
+        if vecs is None:
+            kinds[cb.path] = "?"
+        elif matches_form(vecs, lambda pt: pt[1], grid_d):
+            kinds[cb.path] = "T"
+        elif matches_form(vecs, lambda pt: pt[0] * max(pt[0] - 1.0, 0.0), grid_d):
+            kinds[cb.path] = "D"
+        else:
+            kinds[cb.path] = "other:%s" % [round(v, 3) for v in vecs[:4]]
+    n = 0
+    grid_s = [(a_, b_) for a_ in (6.0, 24.0) for b_ in (12.0, 40.0)]
+    fe = FormulaEval(fl)
+
+    def term_leaf_for(pt):
+        def tl(term, leaf):
+            nm = term.callee.short.split("::")[-1] if term.callee else ""
+            if nm not in ("sum", "fold"):
+                return None
+            cp = mapped_closure_of(fl, term)
+            k_ = kinds.get(cp)
+            if k_ == "T":
+                return pt[0]
+            if k_ == "D":
+                return pt[1]
+            return None
+        return tl
+
+    for st in tr.stmts():
+        if not (st.k == "assign" and st.rv.k == "binop" and st.rv.j["op"] in ("Div", "Mul") and st.lhs.ty == "f64"):
+            continue
+        n += 1
+        cols = []
+        for pt in grid_s:
+            fe.term_leaf = term_leaf_for(pt)
+            vs = fe.definition(st, lambda x: None)
+            cols.append(vs[0] if vs and len(vs) == 1 else None)
+        if None in cols:
+            bad_k = sorted(v for v in kinds.values() if v not in ("T", "D"))
+            if any(v.startswith("other") for v in bad_k):
+                ctx.violation("R-C11-10", "terms", "a per-node term summed by transitivity is neither the triangle field nor d(d-1): at (d, field) = %s.. it is %s" % (grid_d[:4], bad_k), loc_str(st.span))
+            else:
+                ctx.undecided("R-C11-10", "quotient|%d" % n, "the quotient returned by transitivity is not plain arithmetic over two sums of recognised per-node terms (terms: %s); its form is not decided" % sorted(kinds.values()), loc_str(st.span))
+            continue
+        ok = matches_form(cols, lambda pt: pt[0] / pt[1], grid_s)
+        ctx.require(ok, "R-C11-10", "quotient|%d" % n, "transitivity returns sum(triangle field) / sum(d(d-1))",
+                    "transitivity does not return sum(triangle field) / sum(d(d-1)): at (sum of fields, sum of d(d-1)) = %s it evaluates to %s instead of %s" % (grid_s[0], round(cols[0], 6), round(grid_s[0][0] / grid_s[0][1], 6)), loc_str(st.span))
+    ctx.floor("R-C11-10", "transitivity_quotients", n, 1)
